@@ -50,9 +50,23 @@ Qed.
 Lemma nrm_ok m e : canonb (fst (nrm m e)) (snd (nrm m e)) = true.
 Proof. pose proof (nrm_spec m e) as H. destruct (nrm m e) as [m' e']. exact (proj1 H). Qed.
 
-(* smart constructor: the pair is normalised once *)
+(* smart constructor: the pair is normalised once; the canonicity proof stored in the record is
+   [eq_refl] pushed through a match on the (O(1)) boolean, so that vm_compute never evaluates a
+   proof term (it ignores opacity: an opaque proof by induction would be re-run on every operation) *)
+Definition Dy_z : Dy := Dy_ 0 0 eq_refl.
+Definition mk_aux (r : Z * Z) (b : bool) : canonb (fst r) (snd r) = b -> Dy :=
+  match b with
+  | true => fun H => Dy_ (fst r) (snd r) H
+  | false => fun _ => Dy_z
+  end.
 Definition mkDy (m e : Z) : Dy :=
-  (fun (r : Z * Z) (H : canonb (fst r) (snd r) = true) => Dy_ (fst r) (snd r) H) (nrm m e) (nrm_ok m e).
+  let r := nrm m e in mk_aux r (canonb (fst r) (snd r)) eq_refl.
+Lemma mk_aux_true r b H : b = true -> dm (mk_aux r b H) = fst r /\ de (mk_aux r b H) = snd r.
+Proof. destruct b; [split; reflexivity|discriminate]. Qed.
+Lemma dm_mk m e : dm (mkDy m e) = fst (nrm m e).
+Proof. unfold mkDy. cbv zeta. apply mk_aux_true. apply nrm_ok. Qed.
+Lemma de_mk m e : de (mkDy m e) = snd (nrm m e).
+Proof. unfold mkDy. cbv zeta. apply mk_aux_true. apply nrm_ok. Qed.
 
 Lemma Dy_eq a b : dm a = dm b -> de a = de b -> a = b.
 Proof.
@@ -123,7 +137,7 @@ Proof.
   - rewrite (Ee Hm). rewrite E. symmetry. apply qv_shift. exact Hk.
 Qed.
 Lemma dval_mk m e : dval (mkDy m e) == qv m e.
-Proof. unfold dval, mkDy. simpl. apply qv_nrm. Qed.
+Proof. unfold dval. rewrite dm_mk, de_mk. apply qv_nrm. Qed.
 
 Lemma canonb_cases m e : canonb m e = true -> (m = 0%Z /\ e = 0%Z) \/ Z.odd m = true.
 Proof.
@@ -206,7 +220,7 @@ Proof.
   intros H. apply (two_pow_neq0 a). rewrite <- dval_pow2, H. reflexivity.
 Qed.
 Lemma dm_pow2 e : dm (Dy_pow2 e) = 1%Z /\ de (Dy_pow2 e) = e.
-Proof. unfold Dy_pow2, mkDy. simpl. split; [reflexivity|ring]. Qed.
+Proof. unfold Dy_pow2. rewrite dm_mk, de_mk. simpl. split; [reflexivity|ring]. Qed.
 Lemma dval_div_pow2 x p : dval (Dy_div x (Dy_pow2 p)) == dval x / two ^ p.
 Proof.
   unfold Dy_div. destruct (dm_pow2 p) as [E1 E2]. rewrite E1, E2. simpl Z.abs.
@@ -221,7 +235,7 @@ Qed.
 (* ---------- order (used by the harness only through execution; recorded for completeness) ---------- *)
 Lemma Dy_sgn_sub_spec a b : inject_Z (Dy_sgn_sub a b) == inject_Z (Z.sgn (dm (Dy_sub a b))).
 Proof.
-  unfold Dy_sgn_sub, Dy_sub, mkDy. simpl.
+  unfold Dy_sgn_sub, Dy_sub. rewrite dm_mk. cbv zeta.
   set (x := (dm a * 2 ^ (de a - Z.min (de a) (de b)) - dm b * 2 ^ (de b - Z.min (de a) (de b)))%Z).
   pose proof (nrm_spec x (Z.min (de a) (de b))) as H. destruct (nrm x _) as [m' e']. simpl.
   destruct H as (_ & k & Hk & E & _). rewrite E.
